@@ -24,7 +24,7 @@ def canonCmp (a b : Name) : Int := if nameLt a b then -1 else if nameLt b a then
 def compUriOk (c : Component) : Bool :=
   decide (1 ≤ c.typ ∧ c.typ ≤ 65535) &&
   (match convByType c.typ with
-   | some (_, .dec) => decide (c.val = encNat (beDec c.val)) && decide (c.val.length ≤ 8) && decide (c.val ≠ [])
+   | some (_, .dec) => decide (c.val = encNat (decVal c.val))   -- shortest form of its own value
    | _ => true)
 
 def nameUriOk (n : Name) : Bool := n.all compUriOk
